@@ -9,7 +9,8 @@
      {group}   \def\zq..#1..#n{body}   \gdef..   \zq..{arg1}..{argn}   #k   ##
      \newcommand{\zq..}[n+1][default]{body} (a definition with a default)   \zq..[opt]{arg1}..{argn}   \let\zq..=\zq..
      \iftrue | \iffalse | \ifodd<decimal digits>\relax | \ifnum<decimal digits><rel><decimal digits>\relax   then-branch  [\else else-branch]  \fi
-     \ifcase<decimal digits>\relax branch0 \or branch1 ... [\else else-branch] \fi      (at least one branch) *)
+     \ifcase<decimal digits>\relax branch0 \or branch1 ... [\else else-branch] \fi      (at least one branch)
+     an operand of \ifnum / \ifodd / \ifcase may also be \value{zc..};  \stepcounter{zc..}  \setcounter{zc..}{n}  \addtocounter{zc..}{n} *)
 From Coq Require Import List NArith ZArith Bool.
 Import ListNotations.
 From Verif Require Import Val Tokenizer Expand MacroLang Engine.
@@ -51,13 +52,22 @@ Definition digits (n : N) : list N := rev (digs_lsd (S (N.to_nat (N.size n))) n)
 
 Definition rel_tok (r : rel) : tok := other (match r with RLt => 60 | RGt => 62 | REq => 61 end).
 
+(* counters: counter c is zc<code c>; an operand is a non-negative literal or \value{zc..}; an integer argument may be negative *)
+Definition cname (c : Z) : list N := 122 :: 99 :: zcode c.
+Definition pop (o : operand) : list tok :=
+  match o with
+  | OLit z => map other (digits (Z.to_N z))
+  | OCnt c => esc s_value :: bg :: map letter (cname c) ++ [eg]
+  end.
+Definition znum (z : Z) : list tok := (if (z <? 0)%Z then [other 45] else []) ++ map other (digits (Z.abs_N z)).
+Definition cname_arg (c : Z) : list tok := bg :: map letter (cname c) ++ [eg].
+
 Definition print_test (t : test) : list tok :=
   match t with
   | TTrue => [esc s_iftrue]
   | TFalse => [esc s_iffalse]
-  | TNum (OLit a) r (OLit b) =>
-      esc s_ifnum :: map other (digits (Z.to_N a)) ++ rel_tok r :: map other (digits (Z.to_N b)) ++ [esc s_relax]
-  | TOdd (OLit a) => esc s_ifodd :: map other (digits (Z.to_N a)) ++ [esc s_relax]
+  | TNum a r b => esc s_ifnum :: pop a ++ rel_tok r :: pop b ++ [esc s_relax]
+  | TOdd a => esc s_ifodd :: pop a ++ [esc s_relax]
   | TSwitch sw => [esc (ifname sw)]
   | _ => []
   end.
@@ -84,8 +94,11 @@ Fixpoint print_node (n : node) : list tok :=
   | NHash => [hash_tok; hash_tok]
   | NCond t th el =>
       print_test t ++ print th ++ match el with Some e => esc s_else :: print e | None => [] end ++ [esc s_fi]
-  | NCase (OLit z) (b0 :: bs) el =>
-      esc s_ifcase :: map other (digits (Z.to_N z)) ++ esc s_relax :: print b0 ++
+  | NStep c => esc s_stepcounter :: cname_arg c
+  | NSetC c z => esc s_setcounter :: cname_arg c ++ bg :: znum z ++ [eg]
+  | NAddC c z => esc s_addtocounter :: cname_arg c ++ bg :: znum z ++ [eg]
+  | NCase a (b0 :: bs) el =>
+      esc s_ifcase :: pop a ++ esc s_relax :: print b0 ++
       (fix pors (l : list (list node)) : list tok := match l with [] => [] | b :: r => esc s_or :: print b ++ pors r end) bs ++
       match el with Some e => esc s_else :: print e | None => [] end ++ [esc s_fi]
   | _ => []
@@ -120,8 +133,15 @@ Definition in_F1 (p : list node) : bool := forallb f1_node p.
         evaluator substitutes with fuel 50: MacroLang.subst 50)                                        [fb_node n]
      "program text" (definitions with up to 9 parameters whose bodies are bodies as above - or arguments, when n = 0 -,
         calls whose arguments are arguments)                                                           [f2_node]       ---- *)
-(* tests of F2: those of F1 and switches *)
-Definition f2_test (t : test) : bool := match t with TSwitch _ => true | _ => f1_test t end.
+(* tests of F2: those of F1, also on counter operands, and switches *)
+Definition opd_ok (o : operand) : bool := match o with OLit z => (0 <=? z)%Z | OCnt _ => true end.
+Definition f2_test (t : test) : bool :=
+  match t with
+  | TTrue | TFalse | TSwitch _ => true
+  | TNum a _ b => opd_ok a && opd_ok b
+  | TOdd a => opd_ok a
+  | _ => false
+  end.
 
 Definition is_none {A} (o : option A) : bool := match o with None => true | Some _ => false end.
 (* optional arguments and their defaults: plain words (no bracket can hide in them) *)
@@ -130,11 +150,11 @@ Definition opt_ok (o : option (list node)) : bool := match o with None => true |
 
 (* \ifcase on a non-negative literal with at least one branch *)
 Definition case_head (a : operand) (bs : list (list node)) : bool :=
-  match a, bs with OLit z, _ :: _ => (0 <=? z)%Z | _, _ => false end.
+  match bs with _ :: _ => opd_ok a | [] => false end.
 
 Fixpoint fa_node (x : node) : bool :=
   match x with
-  | NWord _ | NLet _ _ | NNewSwitch _ | NSetSwitch _ _ => true
+  | NWord _ | NLet _ _ | NNewSwitch _ | NSetSwitch _ _ | NStep _ | NSetC _ _ | NAddC _ _ => true
   | NGroup b => forallb fa_node b
   | NDef _ _ np d b => Nat.eqb np 0 && is_none d && forallb fa_node b
   | NCall _ o a => opt_ok o && forallb (forallb fa_node) a
@@ -145,7 +165,7 @@ Fixpoint fa_node (x : node) : bool :=
 
 Fixpoint fb_node (n : nat) (x : node) (d : nat) {struct x} : bool :=
   match x with
-  | NWord _ | NLet _ _ | NNewSwitch _ | NSetSwitch _ _ => true
+  | NWord _ | NLet _ _ | NNewSwitch _ | NSetSwitch _ _ | NStep _ | NSetC _ _ | NAddC _ _ => true
   | NParam k => Nat.leb 1 k && Nat.leb k n
   | NGroup b => match d with O => false | S d' => forallb (fun y => fb_node n y d') b end
   | NDef _ _ np dflt b =>
@@ -172,7 +192,7 @@ Definition BODY_DEPTH : nat := 49.      (* MacroLang.subst is called with fuel 5
 
 Fixpoint f2_node (x : node) : bool :=
   match x with
-  | NWord _ | NLet _ _ | NNewSwitch _ | NSetSwitch _ _ => true
+  | NWord _ | NLet _ _ | NNewSwitch _ | NSetSwitch _ _ | NStep _ | NSetC _ _ | NAddC _ _ => true
   | NGroup b => forallb f2_node b
   | NDef g _ np d b =>
       match d with
@@ -246,6 +266,9 @@ Fixpoint gsafe (fuel : nat) (e : env) (out : list Z) (ns : list node) : bool :=
         gsafe f {| frames := frames e; counters := counters e;
                    switches := match alookup sw (switches e) with Some _ => switches e | None => aset sw false (switches e) end;
                    steps := steps e |} out rest
+    | NStep c => gsafe f {| frames := frames e; counters := aset c (cnt e c + 1)%Z (counters e); switches := switches e; steps := steps e |} out rest
+    | NSetC c z => gsafe f {| frames := frames e; counters := aset c z (counters e); switches := switches e; steps := steps e |} out rest
+    | NAddC c z => gsafe f {| frames := frames e; counters := aset c (cnt e c + z)%Z (counters e); switches := switches e; steps := steps e |} out rest
     | NCase a bs el =>
         let z := opval e a in
         let b := if ((0 <=? z) && (z <? Z.of_nat (length bs)))%Z then nth (Z.to_nat z) bs []
